@@ -150,8 +150,10 @@ func cmdCheck(args []string) int {
 	}
 	if *updateClaims {
 		var names []string
+		// only obligations of functions that carry the property themselves are claimed: a callee
+		// that merely drops out of the dependency closure after a harmless edit is not an alarm
 		for _, o := range all {
-			if !ordinalName.MatchString(o.Name) {
+			if !ordinalName.MatchString(o.Name) && (o.ctx == nil || own[o.Func] || own[strings.SplitN(o.Func, "@", 2)[0]]) {
 				names = append(names, o.Name)
 			}
 		}
